@@ -415,6 +415,52 @@ def classify_terminator(c, blocks):
 def _waddr(tok):
     return int(tok[1:], 16) if tok.startswith('$') else int(tok)
 
+def _in_rst_argument_sweep(c, mapped, x, y):
+    """Replays, on the witness, what step 2 of the generator does behind an executed RST 8 whose argument byte was not
+    executed: the blocks the map reader returns (instructions sized without RST arguments, adjacent ones merged), then the
+    sweep from the argument byte to the next block-ending instruction. The listed mechanism is the case in which that sweep
+    ends by planting an *unexecuted* ('U') boundary - when it swallowed the start of an executed block inside its last
+    instruction the boundary is planted as code and a later pass repairs it, so an overlap there has another cause."""
+    from skoolkit.opcodes import END, decode
+    from skoolkit.components import get_rst_handler
+    snap = _snap(c)
+    handler = get_rst_handler()
+    start, end = c['start'], c['end']
+    blocks = []
+    for a in sorted(m for m in mapped if start <= m < end):
+        size = next(decode(snap, a, a + 1))[1]
+        if blocks and a <= sum(blocks[-1]):
+            if a == sum(blocks[-1]):
+                blocks[-1][1] += size
+        else:
+            blocks.append([a, size])
+    ctls0 = {}
+    for a, ln in blocks:
+        ctls0[a] = 'c'
+        if a + ln < end:
+            ctls0[a + ln] = 'U'
+    for a in sorted(mapped):
+        if start <= a < end - 1 and snap[a] == 0xCF and a + 1 not in mapped and ctls0.get(a + 1) == 'U':
+            ctls = dict(ctls0)
+            addr = a + 1
+            next_ctl = 'U'
+            planted = None
+            while addr < end:
+                i_addr, size, max_count, op_id = next(decode(snap, addr, addr + 1, handler))[:4]
+                addr = min(addr + size, end)
+                for k in range(i_addr, addr):
+                    if k in ctls:
+                        next_ctl = ctls.pop(k)
+                if ctls.get(addr) == 'c':
+                    break
+                if op_id == END:
+                    if addr < 65536 and addr not in ctls:
+                        planted = next_ctl
+                    break
+            if planted == 'U' and (a + 1 <= x < addr or a + 1 <= y <= addr):
+                return True
+    return False
+
 def classify_warning(c, warns, blocks, mapped=None):
     end = c['end']
     ids = set()
@@ -441,11 +487,20 @@ def classify_warning(c, warns, blocks, mapped=None):
         if mapped is not None and x not in mapped and y in mapped:
             ids.add('C14-unexecuted-gap-decoded-as-code')
             continue
+        # C14-rst-argument-gap-decoded-as-code: -m with -r. The code-map reader sizes an executed RST without its
+        # argument bytes, so the argument of an RST 8 (default handler '8:B') that was not itself executed is an
+        # unexecuted gap behind a block that does not end with RET/JP/JR; step 2 of the generator decodes from that
+        # argument byte to the next block-ending instruction and puts a block boundary at its end. Decided on the witness:
+        # the overlap lies inside, or at the end of, such a sweep.
+        if mapped is not None and c['rst'] and _in_rst_argument_sweep(c, mapped, x, y):
+            ids.add('C14-rst-argument-gap-decoded-as-code')
+            continue
         return None
-    if len(ids) == 1:
-        return ids.pop()
-    if ids == {'C14-range-ends-inside-instruction', 'C14-text-block-splits-instruction'}:
-        return 'C14-text-block-splits-instruction'
+    # every warning of the case has been attributed to a listed mechanism (an unattributed one returned None above); a
+    # case showing several of them is reported under the most specific one
+    for k in ('C14-rst-argument-gap-decoded-as-code', 'C14-unexecuted-gap-decoded-as-code', 'C14-text-block-splits-instruction', 'C14-range-ends-inside-instruction'):
+        if k in ids:
+            return k
     return None
 
 def run(shard, spec):
